@@ -434,40 +434,26 @@ func runC17(c *core.Ctx) {
 	// (6) attribute values that may be nil are guarded at the producer or in the serializer -------------------------------
 	nilableAttributes(c)
 
-	// (4) segment split ------------------------------------------------------------------------------------------------
-	if f := c.MustFunc("route.(*BGPPath).Prepend"); f != nil {
-		ins := p.Func("route.(*BGPPath).insertNewASSequence")
-		asns := p.Field("protocols/bgp/types", "ASPathSegment", "ASNs")
-		ok, n := false, 0
-		ast.Inspect(f.Decl.Body, func(nd ast.Node) bool {
-			fs, isFor := nd.(*ast.ForStmt)
-			if !isFor {
-				return true
-			}
-			for _, call := range core.Calls(f.Pkg, fs.Body, func(o *types.Func) bool { return ins != nil && o == ins.Obj }) {
-				n++
-				for _, ft := range core.CtlFactsAt(f, call) {
-					be, isB := core.Unparen(ft.Expr).(*ast.BinaryExpr)
-					if !isB || !ft.Truth || !core.MentionsField(f.Pkg, be.X, asns) {
-						continue
-					}
-					lc, isLen := core.Unparen(be.X).(*ast.CallExpr)
-					if !isLen || core.ExprString(lc.Fun) != "len" {
-						continue
-					}
-					if v := core.ConstOf(f.Pkg, be.Y); v != nil {
-						if k, exact := constantInt(v); exact {
-							if (be.Op == token.GEQ || be.Op == token.EQL) && k <= 255 || be.Op == token.GTR && k <= 254 {
-								ok = true
-							}
-						}
-					}
+	// (4) segment split: abstract interpretation of Prepend over the state of the first segment (prependai.go) ------------
+	if res := prependAbstract(c); res.Fn != nil {
+		f := res.Fn
+		c.Analysed(f)
+		construct := f.Name() + " opens a new AS_SEQUENCE when the first segment is full"
+		switch {
+		case len(res.Undecided) > 0:
+			c.Undecided("segment-split", construct, f.Decl.Pos(), "abstract interpretation of Prepend incomplete: "+strings.Join(res.Undecided, "; "))
+		default:
+			var bad []string
+			pos := f.Decl.Pos()
+			for _, v := range res.Viol {
+				if v.kind == "size" {
+					bad = append(bad, p.Pos(v.pos)+" reached with first segment = "+v.st.String())
+					pos = v.pos
 				}
 			}
-			return true
-		})
-		c.Check(n >= 1 && ok, "segment-split", f.Name()+" opens a new AS_SEQUENCE when the first segment is full", f.Decl.Pos(),
-			"inside the prepend loop a new segment is not started when the first segment holds 255 ASNs (the guard must compare the number of ASNs of the first segment with a bound ≤ 255): prepending produces a 256-ASN segment, whose one-octet count wraps to 0 on the wire")
+			c.Check(len(bad) == 0 && res.Writes >= 1, "segment-split", construct, pos,
+				"the write that grows the first segment can execute while that segment already holds 255 ASNs ("+strings.Join(bad, "; ")+"): prepending produces a 256-ASN segment, whose one-octet count wraps to 0 on the wire")
+		}
 	}
 
 	// (5) encoder-known ⊆ decoder-known ---------------------------------------------------------------------------------
